@@ -150,6 +150,31 @@ def program_side(rep, tier):
     return jobs, texts
 
 
+def native_percpu_sub(name, conc, notes):
+    """a per-CPU variable declared in a subprogram, read from Python"""
+    from ebpfcat.arraymap import PerCPUVar, PerCPUVarDesc
+
+    class Map:
+        name, base_register, size, cpu_no = "pmap", 0, 8, 2
+    desc = PerCPUVarDesc(Map, "I")
+    desc.name = "v"
+    main = type("Main", (), {})()
+    main.ebpf, main.loaded = main, True
+    main.pmap = type("Reader", (), {"data": bytes(range(16))})()
+    sub = type("Sub", (), {})()
+    sub.ebpf = main
+    sub.__dict__["v"] = 4
+    main.__dict__["v"] = 0
+    try:
+        got = list(desc.__get__(sub, None))
+    except Exception as e:
+        got = repr(e)
+    want = [0x07060504, 0x0f0e0d0c]
+    return {"inputs": {"subprogram offset": 4, "main program offset of a variable of the same name": 0},
+            "reproduced": got != want,
+            "detail": f"real PerCPUVarDesc.__get__ on a subprogram instance read {got}, its own copies hold {want}"}
+
+
 def native_percpu_x(name, conc, notes):
     """a real PerCPUVar over a buffer that holds a different fixed-point value
     for each CPU"""
@@ -212,6 +237,7 @@ def run(tier, seed):
         api.verify(S.user_set(f), rep, options=OPTS, quiet=True)
         api.verify(S.percpu_getitem(f), rep, quiet=True)
     api.verify(S.percpu_getitem("x"), rep, quiet=True, replay=native_percpu_x)
+    api.verify(S.percpu_desc_get(), rep, quiet=True, replay=native_percpu_sub)
     # a fixed-point variable written from Python: the raw 64-bit integer is the
     # scaled decimal (C02's contract of ArrayGlobalVarDesc.__set__, re-proved
     # here: symbolic under the IEEE model, and concrete samples of both signs)
